@@ -11,8 +11,11 @@ def run(ctx):
     ops = 250 if ctx.thorough else 100
     fails = tuple(range(0, 8)) if ctx.thorough else (1, 2, 4)
     st = subjects.run(ctx, "C05", subjects.STACK + ["iter2", "iter3", "iter3-static"], ["rwdi", "dbg"], n, ops, fail_positions=fails)
+    # memory_arena itself (cached and uncached, growing and fixed source): allocate_block / deallocate_block / shrink_to_fit / moves
+    st.update(subjects.run(ctx, "C05", subjects.ARENA, ["rwdi", "dbg"], n, 60, fail_positions=fails))
     st.update(subjects.run(ctx, "C05", subjects.POOL + subjects.COLL, ["rwdi", "dbg"], max(2, n // 2), 80, fail_positions=fails))
-    ctx.coverage["rule"] = ("every arena client (memory_stack: cached arena; pools, collections: uncached; iteration_allocator: bare block source) "
+    ctx.coverage["rule"] = ("memory_arena driven directly (cached/uncached x growing/fixed: allocate_block, deallocate_block, shrink_to_fit, owns, size/cache_size/capacity/"
+                            "next_block_size, move, move assignment, destruction) and every arena client (memory_stack: cached arena; pools, collections: uncached; iteration_allocator: bare block source) "
                             "over growing/fixed/static sources, histories with unwinds, shrink_to_fit, moves, move assignment and destruction, "
                             "upstream failure at call k in %s; the instrumented upstream keeps a ledger: every block released exactly once with "
                             "the address and size it was acquired with, most recently acquired first, nothing outstanding at the end; the upstream "
